@@ -1,0 +1,136 @@
+//go:build verif
+
+package swap
+
+import (
+	"context"
+	"reflect"
+	"sort"
+	"time"
+	"unsafe"
+)
+
+// This file is compiled only with the build tag `verif`. It exports read-only
+// views of package internals for the verification harness in /verif.
+
+// VerifState is one row of a role's state table.
+type VerifState struct {
+	Action        string            `json:"action"`
+	Events        map[string]string `json:"events"`
+	FailOnrecover bool              `json:"fail_on_recover"`
+}
+
+// VerifTables returns the four role state tables as data.
+func VerifTables() map[string]map[string]VerifState {
+	out := map[string]map[string]VerifState{}
+	for role, states := range map[string]States{
+		"out_sender":   getSwapOutSenderStates(),
+		"out_receiver": getSwapOutReceiverStates(),
+		"in_sender":    getSwapInSenderStates(),
+		"in_receiver":  getSwapInReceiverStates(),
+	} {
+		tbl := map[string]VerifState{}
+		for name, st := range states {
+			ev := map[string]string{}
+			for e, n := range st.Events {
+				ev[string(e)] = string(n)
+			}
+			tbl[string(name)] = VerifState{Action: verifActionName(st.Action), Events: ev, FailOnrecover: st.FailOnrecover}
+		}
+		out[role] = tbl
+	}
+	return out
+}
+
+func verifActionName(a Action) string {
+	if a == nil {
+		return ""
+	}
+	v := reflect.ValueOf(a)
+	if v.Kind() == reflect.Ptr {
+		v = v.Elem()
+	} else {
+		c := reflect.New(v.Type()).Elem()
+		c.Set(v)
+		v = c
+	}
+	name := v.Type().Name()
+	if v.Kind() == reflect.Struct {
+		f := v.FieldByName("next")
+		if f.IsValid() && f.CanAddr() {
+			inner := reflect.NewAt(f.Type(), unsafe.Pointer(f.UnsafeAddr())).Elem().Interface()
+			if ia, ok := inner.(Action); ok && ia != nil {
+				return name + ">" + verifActionName(ia)
+			}
+		}
+	}
+	return name
+}
+
+type verifTimeOutService struct {
+	f func(ctx context.Context, d time.Duration, id string)
+}
+
+func (v *verifTimeOutService) addNewTimeOut(ctx context.Context, d time.Duration, id string) {
+	v.f(ctx, d, id)
+}
+
+// VerifSetTimeoutService replaces the timeout service (call after Start()).
+func (s *SwapService) VerifSetTimeoutService(f func(ctx context.Context, d time.Duration, id string)) {
+	s.swapServices.toService = &verifTimeOutService{f: f}
+}
+
+// VerifTimeoutCallback returns the callback the timeout service would run.
+func (s *SwapService) VerifTimeoutCallback(id string) func() {
+	return s.createTimeoutCallback(id)
+}
+
+// VerifActive returns id -> channel id of the active-swap registry.
+func (s *SwapService) VerifActive() map[string]string {
+	s.RLock()
+	defer s.RUnlock()
+	out := map[string]string{}
+	for id, sw := range s.activeSwaps {
+		out[id] = sw.Data.GetScid()
+	}
+	return out
+}
+
+// VerifActiveIds returns the sorted ids of the active-swap registry.
+func (s *SwapService) VerifActiveIds() []string {
+	m := s.VerifActive()
+	ids := make([]string, 0, len(m))
+	for id := range m {
+		ids = append(ids, id)
+	}
+	sort.Strings(ids)
+	return ids
+}
+
+// VerifTimelock exposes the timelock policy derived from swap data.
+type VerifTimelock struct {
+	CSV, PaymentWindow, MaxTotalCLTVDelta uint32
+	InvoiceFinalCLTV                      uint64
+	AllowNewClaimPayment                  bool
+}
+
+func VerifTimelockPolicy(d *SwapData) (VerifTimelock, error) {
+	p, err := d.getTimelockPolicy()
+	return VerifTimelock{p.CSV, p.PaymentWindow, p.MaxTotalCLTVDelta, p.InvoiceFinalCLTV, p.AllowNewClaimPayment}, err
+}
+
+func VerifCheckPaymentWindow(d *SwapData, height uint32) error {
+	p, err := d.getTimelockPolicy()
+	if err != nil {
+		return err
+	}
+	return checkPaymentWindow(d, height, p)
+}
+
+func VerifValidateClaimInvoice(d *SwapData, msat uint64, cltv int64) error {
+	p, err := d.getTimelockPolicy()
+	if err != nil {
+		return err
+	}
+	return validateClaimInvoice(msat, cltv, d.GetClaimAmount(), p)
+}
